@@ -10,7 +10,7 @@ TECH = ("deterministic simulation with fault injection: seeded histories of API 
         "choosing who runs each call (engine G, native, one fresh process per run) and miri's seeded pre-emptive scheduler "
         "inside calls (engine M); faults = caught panics, short / dirty / unaligned / uninitialised reused output buffers, a reused "
         "input line buffer with stale bytes after the slice, worker-thread death, calls made from a thread-local destructor during "
-        "thread exit and from a destructor while the thread unwinds from the caller's own panic, worker threads with a 32 KiB stack, an "
+        "thread exit and from a destructor while the thread unwinds from the caller's own panic, calls made from the process panic hook while a library call is panicking, worker threads with a 32 KiB stack, re-issued inputs with one middle digit changed, an "
         "allocator that refuses during parse calls, contended first use, options rebuilt at the same address or through the deprecated "
         "setters, repeated calls; oracle = refinement against a "
         "stateless reference model; every failure is a minimised, exactly replayable trace")
@@ -28,13 +28,13 @@ WHAT = {
     "C03": "every integer write (12 types, radix 2..36 in radix builds) in every explored history produces exactly the schoolbook canonical numeral, as a prefix of the caller's buffer",
     "C04": "every integer parse/parse_partial (12 types, radix 2..36) in every explored history returns exactly what a left-to-right reference scan with exact range checking returns, including error kind and index (Empty vs InvalidDigit is accepted either way when no digit follows the sign and other bytes do — the property text is ambiguous there), and returns the same with the multi-digit optimisation switched on; inputs are sub-slices of a reused line buffer whose tail still holds earlier records",
     "C05": "every non-decimal float parse of (a) an exactly representable input (mantissa and scale both < 2^53/2^24, so the true result is one IEEE operation; eleven radices) and (b) an integer lying exactly on, one below or one above the midpoint of two adjacent floats, hundreds of digits long, in radices 2, 4, 16, 3 and 5 (the value known by construction) returns exactly that value; other radices' near-tie inputs and mixed-base formats are not generated because the unchanged tree is already wrong there",
-    "C06": "every power-of-two-radix float write re-parses, in the same format, to the identical bits, and the output is well formed",
-    "C07": "every generic-radix float write (radices 3,5,7,11,20,36; binary exponent within +-900/+-100 of zero) is well formed, is accepted by the parser of the same format and re-parses within 2048/256 ULP",
+    "C06": "every power-of-two-radix float write — default options, and one in five with custom exponent breaks forcing positional or exponent notation into a buffer of exactly buffer_size_const bytes — is well formed, denotes exactly the written value (the numeral is evaluated with big-integer arithmetic, independently of the library's parser: no digit rounded or dropped) and re-parses, in the same format, to the identical bits; hex-float formats with a different exponent base are not generated",
+    "C07": "every generic-radix float write (radices 3,5,7,11,20,36; default options; all normal values except the outermost binades) is well formed, is accepted by the parser of the same format and re-parses within 2048/256 ULP; integers below 2^53 / 2^24 (one write in six) must be written exactly, checked by evaluating the numeral with big-integer arithmetic",
     "C08": "every full-buffer write in every explored history is accepted in full by the complete parser of the same format and parses back to the written value (bit-exact for integers, decimal and power-of-two-radix floats, signed zeros, infinities; NaN as NaN)",
     "C09": "no write with a buffer of the documented size panics (a panic of the allocating facade on a valid call counts too: it sizes its buffer at the documented bound itself); no write — full, short, or panicking — disturbs the 64 canary bytes either side of the caller's slice; the returned slice is a prefix within the bound; under engine M any out-of-slice access is an interpreter error. Buffers: FORMATTED_SIZE / FORMATTED_SIZE_DECIMAL with default options, and exactly buffer_size_const with eight exponent-break pairs and nine max_significant_digits values (min_significant_digits and combinations are not exercised: the unchanged tree already panics at the documented bound for some of those)",
     "C10": "no parse entry point panics or kills its thread on any generated byte string (number alphabet, junk bytes, exponents of any size including ones within a few units of the 16-, 32- and 64-bit limits combined with long zero runs, long digit runs), in an overflow-checking debug-assertion build; every consumed count and error index is <= input length; under engine M any out-of-bounds read is an interpreter error",
     "C11": "complete Ok(v) iff partial Ok((v, len)); partial Ok((v, n)), 0 < n < len, implies complete(first n bytes) = Ok(v) — for integers (all radices), decimal floats, decimal floats with custom NaN strings (shorter and longer than \"infinity\") and custom infinity strings, and radix floats including radix-32/36 inputs whose digits spell \"inf\", \"nan\" or \"infinity\"",
-    "C15": "nan/inf/infinity strings (case-insensitive, optional sign) parse to the special value exactly when Rust core accepts them and near-misses are rejected; no numeric input yields NaN; NaN is written 'NaN', infinities 'inf'/'-inf', -0.0 round-trips; writing a special whose string is disabled panics (through lexical_core and through the facade, also when the call is made while the thread is unwinding); a custom NaN string the builder accepts is written verbatim; with custom NaN or short/long infinity strings configured, exactly those strings (any case, optional sign) are accepted; all on inputs that are sub-slices of a reused line buffer",
+    "C15": "nan/inf/infinity strings (case-insensitive, optional sign) parse to the special value exactly when Rust core accepts them and near-misses are rejected (including look-alikes whose letters have bit 7 set: an input that spells no special string is never accepted as NaN or infinity, by the complete or the partial parser); no numeric input yields NaN; NaN is written 'NaN', infinities 'inf'/'-inf', -0.0 round-trips; writing a special whose string is disabled panics (through lexical_core and through the facade, also when the call is made while the thread is unwinding); a custom NaN string the builder accepts is written verbatim; with custom NaN or short/long infinity strings configured, exactly those strings (any case, optional sign) are accepted; all on inputs that are sub-slices of a reused line buffer",
     "C16": "the same seeded decimal-only history, run in each build (std, no-std, power-of-two, radix+format, compact, ...), produces identical per-call results for every parse (bits, count, error kind and index) and every integer write, and identical float-write bytes in all non-compact builds",
     "C17": "lexical::to_string / to_string_with_options return exactly the bytes lexical_core::write* produced for the same value in the same history, lexical::parse returns exactly what lexical_core::parse returns, and every written byte is ASCII (including custom NaN strings the options builder accepts); this includes writes with exponent-break and digit-limit options, where the facade formats into a fresh zeroed buffer and the core into the caller's reused, possibly dirty one",
     "C19": "for every decimal float parse in every explored history, the lossy option accepts/rejects identically with identical counts and errors, and a finite lossy result is within one ULP of the exact one; zeros unchanged",
@@ -104,7 +104,7 @@ def main():
                "seeded changes they catch. One genuine defect found by the checks was repaired in /repo (commit 'fix: negative non-decimal floats "
                "panic in debug builds…'); six more (C11 sign-then-non-digit partial parse; C01/C16 compact near-halfway rounding; C09 compact digit-limit "
                "debug assertion; C05 rare radix-3/5 near-tie misrounding; C07 generic-radix writer emitting a digit equal to the radix; C02 output not shortest when the shorter decimal is exactly an end of the rounding interval) are recorded in "
-               "known_findings.json. 108 independently written property-breaking changes are kept under seeded/ with the "
+               "known_findings.json. 124 independently written property-breaking changes are kept under seeded/ with the "
                "result of running the checks against each (DESIGN.md §8). audit/ remains as a supporting premise audit (not a check)."),
     )
     json.dump(man, open(os.path.join(ROOT, "MANIFEST.json"), "w"), indent=1)
